@@ -313,8 +313,10 @@ func body(cfg wl.Config, wname string, f *fspec) func() {
 		fc["active"] = env.Active
 		fc["blocked"] = wl.BlockedSummary(sched.BlockedNow())
 		fc["faulted"] = env.Cli.Faulted || env.Srv.Faulted
+		transient := f != nil && f.fault.Kind == tr.ErrOnce
+		fc["transient"] = transient
 		fc["calls"] = [4]int{len(env.Cli.Log), 0, len(env.Srv.Log), 0}
-		if done && (env.Cli.Faulted || env.Srv.Faulted) {
+		if done && (env.Cli.Faulted || env.Srv.Faulted) && !transient {
 			// every later call on the faulted connection fails instead of hanging
 			lateDone := false
 			var errs [4]error
@@ -359,13 +361,17 @@ func check(e *sched.Exec) string {
 	if f == nil {
 		return "HARNESS no snapshot"
 	}
-	if d, _ := f["done"].(bool); !d {
+	// (a write that fails once on a transport that keeps working is not a failed transport: calls may
+	// legitimately wait for data that was lost, and the connection stays open; what remains of the
+	// property is that the failure surfaces in the call it happened in and corrupts nothing)
+	transient, _ := f["transient"].(bool)
+	if d, _ := f["done"].(bool); !d && !transient {
 		if faulted, _ := f["faulted"].(bool); !faulted {
 			return fmt.Sprintf("a call never returned although no fault had been injected (the workload completes on the default schedule); blocked=%v", f["blocked"])
 		}
 		return fmt.Sprintf("a pending call never returned after the transport failure; blocked=%v", f["blocked"])
 	}
-	if n, _ := f["active"].(int); n != 0 {
+	if n, _ := f["active"].(int); n != 0 && !transient {
 		return fmt.Sprintf("a handler is still blocked after the transport failure; blocked=%v", f["blocked"])
 	}
 	// delivered data is a correct prefix, per rpc and direction
@@ -382,7 +388,7 @@ func check(e *sched.Exec) string {
 			}
 		}
 	}
-	if faulted, _ := f["faulted"].(bool); faulted {
+	if faulted, _ := f["faulted"].(bool); faulted && !transient {
 		if ld, _ := f["lateDone"].(bool); !ld {
 			return fmt.Sprintf("a call issued after the failure hangs; blocked=%v", f["blocked2"])
 		}
@@ -472,6 +478,10 @@ func basePlans(tier string) []mc.Plan {
 					for _, j := range js {
 						kinds = append(kinds, tr.Fault{Kind: tr.ErrAfter, Write: p.write, K: k, J: j})
 					}
+					if p.write && k < p.n {
+						// the write fails once and the transport carries on
+						kinds = append(kinds, tr.Fault{Kind: tr.ErrOnce, Write: true, K: k})
+					}
 					for _, fl := range kinds {
 						fs := &fspec{end: p.end, fault: fl}
 						bounds := []int{0}
@@ -502,7 +512,7 @@ func plans(tier string) []mc.Plan {
 
 func init() {
 	mc.Register(&mc.Check{ID: "C05", Plans: plans, Budget: map[string]int{"quick": 240, "thorough": 1800},
-		Notes: "C05: for every transport call index k of a fault-free default run (+1), endpoint, read/write and fault kind (error return, error after j bytes, peer close, local close) the workload is re-run with that fault armed under every schedule within the bound; oracle: no panic, every pending call returns, later calls fail, connection reports closed, delivered data is a correct per-stream prefix."})
+		Notes: "C05: for every transport call index k of a fault-free default run (+1), endpoint, read/write and fault kind (error return, error after j bytes, peer close, local close; plus a write that fails once on a transport that carries on) the workload is re-run with that fault armed under every schedule within the bound; oracle: no panic, every pending call returns, later calls fail, connection reports closed, delivered data is a correct per-stream prefix."})
 }
 
 // Exported for the checks that reuse the workloads (C12).
